@@ -927,7 +927,7 @@ func Run(r *fw.Run) {
 		ss   []string
 	}
 	var bases []signed
-	for _, t := range []string{"a\n", "a\nb\n", "a\n\nb\n", "é\n", "\n", "a\n\n" + good1 + "\n"} {
+	for _, t := range []string{"a\n", "a\nb\n", "a\n\nb\n", "é\n", "\n", "a\n\n" + good1 + "\n", "\ufeffa\n", "\ufeff\n"} {
 		for _, ss := range [][]string{{"k1"}, {"k1", "k2"}, {"k2", "k1"}} {
 			bases = append(bases, signed{t, ss})
 		}
@@ -952,6 +952,10 @@ func Run(r *fw.Run) {
 				return append(append(append([]byte{}, orig[:p]...), c), orig[p:]...)
 			}
 			muts = append(muts, mut{fmt.Sprintf("insert-newline@%d", p), ins('\n')}, mut{fmt.Sprintf("insert-a@%d", p), ins('a')})
+			// multi-byte insertions: runes and byte sequences that text-handling code tends to treat specially
+			for _, w := range []string{"\ufeff", "\xef\xbb", "é", "\u2028", "\u00a0", "\r\n", "\n\n", "\u2014 ", "\x00\x00", "\ufffd", "\xe2\x80"} {
+				muts = append(muts, mut{fmt.Sprintf("insert-%q@%d", w, p), append(append(append([]byte{}, orig[:p]...), w...), orig[p:]...)})
+			}
 			if p == len(orig) {
 				break
 			}
